@@ -138,8 +138,9 @@ PROPS = {
         "assumptions": ["the LU solve is a parameter indexed by (level, iteration): the theorems hold for every such family"],
     },
     "C01": {
-        "modules": ["Ezpz.Properties.C01", "Ezpz.Real.Meaning", "Ezpz.Real.MeaningArcs"],
+        "modules": ["Ezpz.Properties.C01", "Ezpz.Real.Meaning", "Ezpz.Real.MeaningArcs", "Ezpz.Real.Composite"],
         "suites": [
+            {"suite": "composite", "quick": (2000,), "thorough": (20000,)},
             {"suite": "kernels", "quick": (750,), "thorough": (10000,)},
             {"suite": "trace", "quick": (1500, "planted,contra,prio,linear,conflict,disparity,collapsed,pinned,resolve"), "thorough": (15000, "planted,contra,prio,linear,caps,malformed,conflict,disparity,collapsed,pinned,resolve")},
         ],
